@@ -155,6 +155,15 @@ pub fn c15(out: &mut dyn Write, tier: &str, _rng: &mut Rng, st: &mut Stats) {
                 } else {
                     // large instance: summary only
                     let mut cnt = 0usize; let mut maxv = 0usize; let mut ok = true;
+                    // what the property needs of a large instance, whatever the number and order of its constraints: every
+                    // constraint holds for every placement (at most one on cells of one line; exactly one only on a whole
+                    // row or column), every row and column is under an exactly-one, and every diagonal of two or more
+                    // cells is, whole, under some constraint (so every attacking pair is)
+                    let mut sound = true;
+                    let mut rows_e: std::collections::HashSet<usize> = Default::default();
+                    let mut cols_e: std::collections::HashSet<usize> = Default::default();
+                    let mut diag_dn: std::collections::HashSet<i64> = Default::default();
+                    let mut diag_up: std::collections::HashSet<i64> = Default::default();
                     let mut cur = &pf.bdd;
                     loop {
                         match cur {
@@ -170,6 +179,22 @@ pub fn c15(out: &mut dyn Write, tier: &str, _rng: &mut Rng, st: &mut Stats) {
                                     let legal = [1i64, n as i64, n as i64 + 1, n as i64 - 1, -(n as i64 - 1), -(n as i64) + 1];
                                     if !steps.iter().all(|s| *s == st0) || !(legal.contains(&st0) || cells.len() <= 1) { ok = false; }
                                     if !matches!(op, CountableOperator::AtMost | CountableOperator::Exactly) { ok = false; }
+                                    // the line this list lies on, and whether it is the whole of it
+                                    let ni = n as i64;
+                                    let on = |r: i64, c: i64| r >= 0 && c >= 0 && r < ni && c < ni;
+                                    if let (Some(first), Some(last)) = (cells.first(), cells.last()) {
+                                        let (r0, c0) = ((*first / n) as i64, (*first % n) as i64);
+                                        let (r1, c1) = ((*last / n) as i64, (*last % n) as i64);
+                                        let (dr, dc) = if cells.len() == 1 { (0, 0) } else { ((r1 - r0).signum(), (c1 - c0).signum()) };
+                                        let geometric = cells.iter().enumerate().all(|(k, c)| on(r0 + dr * k as i64, c0 + dc * k as i64) && *c as i64 == (r0 + dr * k as i64) * ni + c0 + dc * k as i64);
+                                        if !geometric || cells.iter().any(|c| *c >= n * n) { sound = false; }
+                                        let whole = cells.len() >= 2 && geometric && !on(r0 - dr, c0 - dc) && !on(r1 + dr, c1 + dc);
+                                        let exactly = matches!(op, CountableOperator::Exactly);
+                                        if exactly && !(whole && (dr == 0 || dc == 0)) && !(n == 1) { sound = false; }
+                                        if whole && exactly && dr == 0 { rows_e.insert(r0 as usize); }
+                                        if whole && exactly && dc == 0 { cols_e.insert(c0 as usize); }
+                                        if whole && dr != 0 && dc != 0 { if dr == dc { diag_dn.insert(r0 - c0); } else { diag_up.insert(r0 + c0); } }
+                                    }
                                 } else { ok = false; }
                                 cur = r;
                             }
@@ -177,7 +202,7 @@ pub fn c15(out: &mut dyn Write, tier: &str, _rng: &mut Rng, st: &mut Stats) {
                             _ => { ok = false; break; }
                         }
                     }
-                    format!("BIG {} {} {}", cnt, maxv, ok as u8)
+                    format!("BIG {} {} {} {} {} {} {} {}", cnt, maxv, ok as u8, sound as u8, rows_e.len(), cols_e.len(), diag_dn.len(), diag_up.len())
                 }
             }
             _ => "ERR".to_string(),
